@@ -9,11 +9,11 @@ from checks import ddcommon
 
 META = {
     "title": "TDD: constants, var, connectives, ite, eval and cofactors follow one fixed three-valued truth table each",
-    "technique": "Rocq proof over a hand-written Gallina model of oxidd-rules-tdd (terminal_bin, apply_not, apply_bin, apply_ite_rec, eval_edge, cofactors, reduction rule): finite case analysis of every terminal short-cut against the fixed tables, lifting to all diagrams and all assignments by induction on the ternary Shannon expansion, canonicity; model tied to /repo by lock-step differential runs (extracted OCaml tables and algorithmic model vs. the real TDD manager built from the working tree)",
+    "technique": "Rocq proof over a hand-written Gallina model of oxidd-rules-tdd (terminal_bin, apply_not, apply_bin, apply_ite_rec, eval_edge, cofactors, reduction rule): finite case analysis of every terminal short-cut against the fixed tables, lifting to all diagrams and all assignments by induction on the ternary Shannon expansion, canonicity; model tied to /repo by lock-step differential runs (extracted OCaml tables and algorithmic model vs. the real TDD manager built from the working tree). Second model of the same functions on the manager state (coq/DD/ApplyTdd.v: node table with unique table, reduce = all three children equal + get_or_insert, the three hash-consed terminals, abstract apply cache keyed by (TDDOp code, normalised operands), unobservable edge order as a parameter), proved sound against the SAME tables by fuel induction with a canonicity-based stability clause, connected to the tree model by an unfolding theorem, and replayed (extracted) on snapshots of real TDD managers with the real operand edges",
     "category": "proof",
-    "design_ref": "DESIGN.md section 5, C11",
-    "level_text": "Theorems in coq/Props/C11.v (checked by coqc on every run, Print Assumptions audited, all closed under the global context): the tables are Kleene's/Lukasiewicz's (C11_tables), every arm of terminal_bin for all 8 binary operators incl. the f == g short-cuts and operand normalisation denotes its table for operands of any shape and any edge order (C11_terminal_bin, _leaves, _key), every terminal short-cut of apply_ite_rec denotes ite3 (C11_ite_shortcuts), constants/var (C11_constants_var), and for ALL diagrams and ALL assignments: not / the 8 binary connectives / ite return the diagram of the pointwise table, terminate, and preserve ordered + reduced + level bound (C11_not, C11_apply_bin, C11_apply_ite); eval = sem on complete assignments (C11_eval); cofactors are the children = the three restrictions w.r.t. the top variable (C11_cofactors); ordered reduced diagrams are canonical so handle equality is function equality (C11_canonical); every function has such a diagram (C11_representable). On every run the real manager (2 variables, both orders, constants through TDDFunction::f/t/u) is driven over all pairs x 8 connectives and all triples (ite) of the 27 one-variable functions, mixed x0/x1 operands and a seeded sample of two-variable operand tuples; every result's full value table (eval on all 9 complete assignments), node structure (through cofactors()) and handle equalities are compared with the extracted tables (kind=prop) and the extracted algorithmic model (kind=corr).",
-    "level_note": "Trusted: Coq kernel, extraction (ExtrOcamlBasic), OCaml driver, Rust harness; the model is hand-written. Not modelled: the apply cache (the model recomputes; C11_terminal_bin_key shows the normalised operand pair is a sound key), reference counting, allocation failure, concurrency. eval with INCOMPLETE assignments is outside the property's quantifier and not checked (unassigned variables select the true child in this tree, the documentation says unknown). The bit-packed choices vector of eval_edge is modelled (eval_packed) and run in the driver; its equality with the abstract eval is proved in DD/TddProofs.v where stated. C11_default_ite_refuted: the default method TVLFunction::ite_edge of oxidd-core computes or(and(f,g), imp_strict(f,h)), which differs from the property's ite at (U,T,T); it is overridden by TDDFunction and unreachable through TDD handles, hence reported but not a violation.",
+    "design_ref": "DESIGN.md section 5, C11; notes/C11s.md",
+    "level_text": "Theorems in coq/Props/C11.v (checked by coqc on every run, Print Assumptions audited, all closed under the global context): the tables are Kleene's/Lukasiewicz's (C11_tables), every arm of terminal_bin for all 8 binary operators incl. the f == g short-cuts and operand normalisation denotes its table for operands of any shape and any edge order (C11_terminal_bin, _leaves, _key), every terminal short-cut of apply_ite_rec denotes ite3 (C11_ite_shortcuts), constants/var (C11_constants_var), and for ALL diagrams and ALL assignments: not / the 8 binary connectives / ite return the diagram of the pointwise table, terminate, and preserve ordered + reduced + level bound (C11_not, C11_apply_bin, C11_apply_ite); eval = sem on complete assignments (C11_eval); cofactors are the children = the three restrictions w.r.t. the top variable (C11_cofactors); ordered reduced diagrams are canonical so handle equality is function equality (C11_canonical); every function has such a diagram (C11_representable). On every run the real manager (2 variables, both orders, constants through TDDFunction::f/t/u) is driven over all pairs x 8 connectives and all triples (ite) of the 27 one-variable functions, mixed x0/x1 operands and a seeded sample of two-variable operand tuples; every result's full value table (eval on all 9 complete assignments), node structure (through cofactors()) and handle equalities are compared with the extracted tables (kind=prop) and the extracted algorithmic model (kind=corr). TABLE LEVEL (C11_snap_*, 24 theorems, coq/DD/ApplyTdd*.v): for every table satisfying TdOK (well-formed TDD table with exactly the terminals False/Unknown/True; decided by the extracted checker td_ok_b, C11_snap_invariant_checker), every apply cache of ANY implementation that only serves what was added (lossy) whose servable entries are correct (TCacheOK: the key (operator code, operands) determines the pointwise meaning of the value), every edge order used for the operand normalisation and fuel above the height: td_apply_not / td_apply_bin op / td_apply_ite return (never fail) a reference denoting fn_not phi / fn_bin op phi psi / fn_ite phi psi theta - the pointwise liftings of k_not / table op / ite3 of DD/Tdd.v, i.e. of the one fixed logic (C11_snap_not_lifts, _apply_bin_lifts, _apply_ite_lifts; _pointwise in terms of the interpreter semk only; C11_snap_handles_assignments in terms of three-valued assignments of the VARIABLES under the table's variable order, incl. constants and var); the table is only extended, TdOK and TCacheOK are preserved, and if the result function already has a reference this very reference is returned and nothing is created - hence cache transparency, history independence and result uniqueness (C11_snap_cache_transparent, _*_history_independent, _result_unique), also for the direct-mapped cache model (C11_snap_cache_instances). C11_snap_terminal_bin_sound discharges every arm of terminal_bin on table references (f == g, terminal short-cuts, Not results, operand swap only for commutative tables, key = operands as given or swapped); C11_snap_ite_shortcuts_sound every rewrite of apply_ite_rec after the three equality tests (g == h, f == g -> or, f == h -> and, terminal conditions, (T,inner) -> or, (F,inner) -> imp_strict, (inner,T) -> imp, (inner,F) -> and, (F,T) -> not, (T,F) -> f); C11_snap_constants / _var / _cofactors (children = the three restrictions w.r.t. the root level, which the function depends on) / _eval (the bit-packed choices vector = the abstract map; complete argument lists in any order with repetitions give the handle's function) / _denotation (every reference denotes exactly one function; equal functions -> equal references). C11_snap_unfold + C11_snap_tree_model: every reference unfolds to an ordered, reduced tree of the first model with the same function, the tree determines the reference, and the table algorithms commute with unfolding (result of the table algorithm unfolds to the result of the tree algorithm on the unfolded operands, for all caches and edge orders) - so the tree-level theorems are statements about the manager. Hypotheses satisfiable (C11_snap_hypotheses_satisfiable: fresh manager and an 8-node table with a non-empty cache built by the model). On every run (second stage): harness h_dd kind=tdd, every snapshot lifted and td_ok_b evaluated; every not / connective / ite / const / var compared with the extracted fixed table applied pointwise to the operands over all 3^n assignments (kind=prop), replayed by the extracted table model with the real operand edges on the snapshot before it (same value table; same edge if it existed; the real run creates no more nodes than the model; no pre-state node changed) and on a later snapshot (the model must return the real result edge and create nothing), the unfolding of the real result compared with the tree algorithm on the unfolded operands; eval vs td_eval / td_eval_abs; cofactors vs td_cofactors (kind=corr).",
+    "level_note": "Trusted: Coq kernel, extraction (ExtrOcamlBasic), OCaml drivers (c11_main.ml, c11s_main.ml incl. lifting of snapshots and the per-snapshot shift of node ids), Rust harnesses (h_tdd, h_dd), the public snapshot API; the models are hand-written. Tree model: the apply cache is not part of it (the model recomputes; C11_terminal_bin_key shows the normalised operand pair is a sound key). Table model: the cache is abstract (any lossy cache; instances: association list, no cache, the direct-mapped cache of DD/Cache.v), the edge order f > g is a parameter (unobservable; theorems hold for every order), get_terminal(..).unwrap() / unwrap_inner() panics are None results that the theorems exclude under TdOK. Not modelled at either level: reference counting / EdgeDropGuard (C05), allocation failure (AllocResult), statistics counters, concurrency (oxidd-rules-tdd has no multi-threaded recursion). eval with INCOMPLETE assignments is outside the property's quantifier and not checked (unassigned variables select the true child in this tree, the documentation says unknown). The bit-packed choices vector of eval_edge is modelled (eval_packed) and run in the driver; its equality with the abstract eval is proved in DD/TddProofs.v where stated. C11_default_ite_refuted: the default method TVLFunction::ite_edge of oxidd-core computes or(and(f,g), imp_strict(f,h)), which differs from the property's ite at (U,T,T); it is overridden by TDDFunction and unreachable through TDD handles, hence reported but not a violation.",
 }
 
 ALLOWED_AXIOMS = ()
@@ -231,6 +231,18 @@ def run_snap(ctx):
     cases = corpus + snap_cases(ctx)
     ok, bad, _ = vf.lockstep_sharded(ctx, binp, drv, cases, nshards=16, tag="-snap")
     by_id = {h.split()[0]: (h, ops) for h, ops in cases}
+    bin_of = {}
+    # the corpus and every sixth case also on a debug-profile build of /repo (debug assertions, overflow checks)
+    binp_dbg = ddcommon.build_dd_debug(ctx)
+    dcases = [("dbg-" + h, ops) for h, ops in corpus + cases[len(corpus)::6]]
+    ok2, bad2, _ = vf.lockstep_sharded(ctx, binp_dbg, drv, dcases, nshards=16, tag="-snap-dbg")
+    ok += ok2
+    bad = list(bad) + list(bad2)
+    ctx.add_stat("c11s_debug_profile_cases", len(dcases))
+    for h, ops in dcases:
+        by_id[h.split()[0]] = (h, ops)
+        bin_of[h.split()[0]] = binp_dbg
+    cases = cases + dcases
     seen = set()
     for cid, msg in bad:
         cls = ddcommon.msg_class(msg)
@@ -239,13 +251,14 @@ def run_snap(ctx):
         seen.add(cls)
         header, ops = by_id[cid]
         kind = "prop" if "kind=prop" in msg else "corr"
-        small, smsg = vf.shrink_case(ctx, binp, drv, header, ops, kind, budget=120,
+        small, smsg = vf.shrink_case(ctx, bin_of.get(cid, binp), drv, header, ops, kind, budget=120,
                                      protect=lambda o: o.startswith("VARS"), accept=lambda m2, c=cls: ddcommon.msg_class(m2) == c)
         smsg = smsg or msg
         body = ";".join(small) if len(small) <= 30 else f"case-{cid}"
         vf.report_violation(
             ctx, f"{kind}:{cls[0]}:{cls[1]}:snap:{body}",
             {"stage": "correspondence", "driver": "c11s", "kind": kind, "case_header": header, "ops": small, "verdict": smsg,
+             "profile": "debug" if cid in bin_of else "release",
              "replay_cmd": "./check C11 --replay <this file>",
              "how_to_read": "h_dd script, kind=tdd: T3VAR/T3CONST/T3NOT/T3AND../T3ITE dst operands; value tables are indexed by the assignment in base 3 (digit v = child index at variable v: 0 true, 1 unknown, 2 false), values 0 F, 1 U, 2 T",
              "theorem_or_relation": "C11 table level: coq/Props/C11.v C11_snap_* (model = implementation on the same table and operands; result table = fixed table applied pointwise)"},
@@ -318,13 +331,16 @@ def run(ctx):
                    "table_model_rule": "second stage (harness h_dd kind=tdd, driver ocaml/c11s_main.ml, extracted coq/DD/ApplyTdd.v): real TDD managers with 2 variables holding the 27 functions of x0 and the 27 functions of x1 (built from var, f/u/t and the connectives), per connective two (thorough: all four) of the (x0|x1, x0|x1) combinations x all 27x27 operand pairs, both variable orders, apply cache 16 / 1024; not, cofactors and eval of all 54 functions and the constants; 4 (thorough 24) cases of 1200 sampled ite triples (same variable, mixed, equal operands, constants); 150 (thorough 1500) random histories on 1..5 variables with a snapshot after every operation (operands: variables, constants, earlier results; gc, set_var_order, drops, eval, cofactors in between; apply cache 4 / 16 / 4096). Every snapshot is lifted and td_ok_b (hypothesis TdOK) evaluated; every not / connective / ite / const / var is (prop) compared with the extracted fixed table applied pointwise to the operands' value tables over all 3^n assignments, (pre) replayed by the extracted model on the snapshot before it with the real operand edges (same value table, same edge if it existed, real run creates no more nodes than the model, no node of the pre-state changed), (post) replayed on the first later snapshot with unchanged handles (the model must return the real edge and create nothing; association-list cache / no cache / pre-filled cache, three edge orders), (tree) the unfolding of the real result must equal the tree algorithm of coq/DD/Tdd.v on the unfolded operands; T3EVAL vs td_eval (packed choices) and td_eval_abs on all 3^n assignments with permuted / repeated arguments; T3COF vs td_cofactors"},
         assumptions=["eval is only checked on complete assignments (incomplete ones are outside C11)",
                      "two variables in the differential run; the theorems hold for any number of levels",
-                     "the apply cache is not part of the model (results are compared, not cache contents)"])
+                     "first stage: the apply cache is not part of the tree model (results are compared, not cache contents); second stage: the real cache contents are not lifted (the table model is run with caches of its own; its theorems hold for every correct cache)",
+                     "second stage: at most 5 variables (3^5 assignments per value table); the theorems hold for any number of levels"])
 
 
 def replay(ctx, path):
     r = json.load(open(path))
     if r.get("driver") == "c11s":
         binp, drv = build_snap(ctx)
+        if r.get("profile") == "debug":
+            binp = ddcommon.build_dd_debug(ctx)
         f = os.path.join(ctx.workdir, "replay.txt")
         vf.write_cases(f, [(r["case_header"], r["ops"])])
         ok, bad = vf.lockstep(ctx, binp, drv, f, tag="-replay")
